@@ -97,6 +97,8 @@ def tok_op(o, dump_before=None):
         return [10, o["i"], o["p"]]
     if k == 11:
         return [11, o["i"], o["u"]]
+    if k == 12:
+        return [12, o["i"], tok_pairs(o["hadd"])]
     hdrs = o.get("hdrs")
     if o.get("from_u") is not None:
         hdrs = dump_before["umaps"][o["from_u"]]
@@ -136,4 +138,20 @@ def gen_call(rng, reserved_p=0.0):
     if rng.random() < 0.3:   # the handler makes an onward call with the received context
         ops.append({"k": 10, "i": 1, "p": 0})
     ops.append({"k": 11, "i": 1, "u": 0})
+    return ops
+
+
+def gen_processor_call(rng):
+    """one call through a real FBaseProcessor with a bounded output buffer; a third of them overflow it"""
+    ops = [{"k": 1, "cid": (rval(rng) or b"c").hex()}]
+    for _ in range(rng.randrange(0, 4)):
+        ops.append({"k": 2, "i": 0, "m": 0, "key": rkey(rng, 0).hex(), "val": rval(rng).hex()})
+    limit = rng.choice([600, 2000, 70000])
+    over = rng.random() < 0.4
+    size = limit + rng.randrange(1, 400) if over else rng.randrange(0, max(1, limit - 500))
+    hadd = [[rkey(rng, 0.1).hex(), rval(rng).hex()] for _ in range(rng.randrange(0, 5))]
+    ops.append({"k": 12, "i": 0, "hadd": hadd, "size": size, "limit": limit, "_over": over})
+    if rng.random() < 0.4:       # the same caller context is used for a second call
+        hadd2 = [[rkey(rng, 0).hex(), rval(rng).hex()] for _ in range(rng.randrange(0, 3))]
+        ops.append({"k": 12, "i": 0, "hadd": hadd2, "size": rng.randrange(0, 100), "limit": 0, "_over": False})
     return ops
